@@ -41,7 +41,11 @@ ALPHABETS = {
     "float-bool": (0.5, False, "x"),
 }
 FIELDS = ("state", "status", "_s")
-SHAPES = ("default", "plain", "property", "classdefault", "falsy-len", "falsy-bool", "mixin")
+SHAPES = ("default", "plain", "property", "classdefault", "falsy-len", "falsy-bool", "mixin",
+          # objects that are mappings as well (an ODM document, a UserDict record): the state
+          # lives in the attribute `state_field` all the same; no such attribute exists before
+          # the machine is built, and the (empty) object is falsy
+          "mapping", "userdict")
 CFGS = (Cfg("sync", True, False, "direct"), Cfg("sync", False, False, "direct"),
         Cfg("async", True, False, "facade"))
 BAD = ("zz", 99, (9,), 1.5)
@@ -97,6 +101,12 @@ def make_model(shape, field, asyn, built_cls=None):
     elif shape == "falsy-bool":
         ns[field] = None
         ns["__bool__"] = lambda self: False
+    elif shape in ("mapping", "userdict"):
+        import collections
+        base = dict if shape == "mapping" else collections.UserDict
+        ns["__hash__"] = object.__hash__
+        ns["__eq__"] = lambda self, other: self is other
+        return type("UserModel", (base,), ns)()
     else:
         raise AssertionError(shape)
     return type("UserModel", (), ns)()
@@ -263,6 +273,15 @@ def scenario(res, alpha, init_pos, shape, field, cfg, start, hist_len, sc_base):
         small = [o for o in first if o[0] in ("ev", "setval", "bad-setval")][:6] + \
                 [o for o in first if o[0] in ("setattr", "setstate")][:2]
         seqs += [(a, b[:2] + (("e1",) if b[0] == "ev" else b[2:])) for a in small for b in small]
+    # another instance of the same class was created (and activated) first, started elsewhere:
+    # where this class's earlier instances started must not matter to the instances under test
+    if shape != "mixin":
+        from ..drive import Impl
+        k0 = start[1] if start and start[0] in ("sv", "stored") else init_pos
+        warm = Impl(built, cfg, start_value=vals[(k0 + 1) % len(vals)])
+        warm.construct()
+        if asyn:
+            warm.activate()
     for seq in seqs:
         user_model = make_model(shape, field, asyn) if shape != "mixin" else None
         kw = {}
